@@ -10,50 +10,51 @@ use vh_lite::{read_cases, drive, drive_group, quiet_panics, Out};
 
 mod tc_right__pari;
 mod tc_left__run;
-mod tc_left__init;
-mod tc_left__u64;
-mod tc_nonlin__perm2;
-mod mutual__pari;
-mod mutual__src2;
-mod mutual__ren;
-mod scc_chain__to;
-mod scc_chain__strpar;
-mod repeated__par;
-mod repeated__strpar;
-mod three_dyn__ren;
-mod conds__ser;
-mod conds__src2;
-mod conds__ren;
-mod count_up__to;
-mod multi_head__perm2;
-mod facts__gen;
-mod facts__srcpar;
-mod opt_cols__ser;
-mod opt_cols__src2;
-mod cartesian__pari;
-mod same_gen__ren;
-mod not_reorderable__to;
-mod pre_join_rec__pari;
-mod two_inputs__par;
-mod two_inputs__src1;
-mod two_inputs__perm2;
-mod wild__pari;
-mod ternary__str;
-mod bound_mix__ren;
-mod join_chain__perm1;
-mod cond_simple_join__par;
-mod zero_arity__par;
-mod lag_right__to;
-mod lag_right__strpar;
-mod lag_three__pari;
-mod lag_mid__ren;
-mod lag_late_delta__to;
-mod multi_head_rec__exppar;
-mod sp_dual__gen;
-mod sp_dual__srcpar;
-mod sp_weighted__to;
-mod set_reach__par;
-mod set_reach__src1;
+mod tc_left__redecl;
+mod tc_left__str;
+mod tc_nonlin__perm1;
+mod mutual__par;
+mod mutual__src1;
+mod mutual__perm1;
+mod scc_chain__par;
+mod scc_chain__str;
+mod consts__pari;
+mod repeated__str;
+mod three_dyn__perm1;
+mod four_dyn__par;
+mod conds__src0;
+mod conds__srcpar;
+mod count_up__ser;
+mod multi_head__to;
+mod facts__pari;
+mod facts__srcred;
+mod facts__permpar;
+mod opt_cols__mrt;
+mod opt_cols__init;
+mod same_gen__pari;
+mod same_gen__u64;
+mod not_reorderable__perm2;
+mod pre_join_rec__perm1;
+mod two_inputs__topar;
+mod two_inputs__srcred;
+mod two_inputs__permpar;
+mod ternary__par;
+mod ternary__strpar;
+mod bound_mix__str;
+mod join_chain__ren;
+mod reach__ser;
+mod self_join3__ser;
+mod lag_right__perm1;
+mod lag_left__par;
+mod lag_three__topar;
+mod lag_mid__str;
+mod multi_head_rec__ser;
+mod sp_dual__par;
+mod sp_dual__src1;
+mod sp_dual__perm1;
+mod sp_weighted__topar;
+mod set_reach__pari;
+mod set_reach__src2;
 mod bset__par;
 mod cp__topar;
 mod bool_lat__par;
@@ -61,101 +62,104 @@ mod lat_multi_improve__to;
 mod lat_count_all__par;
 mod lat_input__to;
 mod lat_input__srcto;
-mod count_paths__to;
-mod count_paths__srcto;
-mod neg_basic__to;
-mod neg_basic__srcto;
-mod neg_basic__permpar;
-mod agg_depth__pari;
-mod agg_user__ser;
-mod agg_bound_mix__ser;
-mod agg_empty_rel__ser;
-mod agg_const_args__exp;
-mod disj__to;
-mod disj__srcto;
-mod disj__permpar;
-mod pat_args__ser;
-mod rep_expr__exp;
-mod neg_in_disj__par;
-mod mac_basic__topar;
-mod mac_basic__redecl;
-mod mac_capture__pari;
-mod mac_gensym_disj__ser;
-mod mac_disj__exp;
-mod rnd_core_01__ser;
-mod rnd_core_03__pari;
-mod rnd_core_06__par;
-mod rnd_core_09__ser;
-mod rnd_core_11__pari;
-mod rnd_core_14__par;
-mod rnd_core_17__ser;
-mod rnd_core_19__pari;
-mod rnd_core_22__par;
-mod rnd_core_25__ser;
-mod rnd_core_27__pari;
-mod rnd_core_30__par;
-mod rnd_agg_03__ser;
-mod rnd_agg_05__pari;
-mod rnd_agg_08__par;
-mod rnd_agg_11__ser;
-mod rnd_agg_13__pari;
-mod rnd_prec_01__par;
-mod rnd_prec_02__topar;
-mod rnd_prec_04__pari;
-mod rnd_prec_06__ser;
-mod rnd_prec_07__to;
-mod rnd_prea_01__par;
-mod rnd_prea_04__ser;
-mod rnd_prea_06__pari;
+mod count_paths__pari;
+mod count_paths__src2;
+mod neg_basic__par;
+mod neg_basic__src1;
+mod neg_basic__perm1;
+mod agg_minmaxsum__pari;
+mod agg_lattice__pari;
+mod neg_rec_after__pari;
+mod agg_empty__pari;
+mod agg_const_args__ser;
+mod disj__ser;
+mod disj__src0;
+mod disj__srcpar;
+mod disj_nested__par;
+mod pat_args__exppar;
+mod multi_head_disj__pari;
+mod mac_basic__ser;
+mod mac_basic__src0;
+mod mac_basic__srcpar;
+mod mac_nested__ser;
+mod mac_gensym_disj__exp;
+mod mac_block__par;
+mod mac_disj__exppar;
+mod rnd_core_01__par;
+mod rnd_core_04__ser;
+mod rnd_core_06__pari;
+mod rnd_core_09__par;
+mod rnd_core_12__ser;
+mod rnd_core_14__pari;
+mod rnd_core_17__par;
+mod rnd_core_20__ser;
+mod rnd_core_22__pari;
+mod rnd_core_25__par;
+mod rnd_core_28__ser;
+mod rnd_core_30__pari;
+mod rnd_agg_03__par;
+mod rnd_agg_06__ser;
+mod rnd_agg_08__pari;
+mod rnd_agg_11__par;
+mod rnd_agg_14__ser;
+mod rnd_prec_01__pari;
+mod rnd_prec_03__ser;
+mod rnd_prec_04__to;
+mod rnd_prec_06__par;
+mod rnd_prec_07__topar;
+mod rnd_prea_01__pari;
+mod rnd_prea_04__par;
+mod rnd_prea_07__ser;
 
 fn lookup(name: &str) -> fn() -> Box<dyn Driven> {
    match name {
       "tc_right__pari" => tc_right__pari::make,
       "tc_left__run" => tc_left__run::make,
-      "tc_left__init" => tc_left__init::make,
-      "tc_left__u64" => tc_left__u64::make,
-      "tc_nonlin__perm2" => tc_nonlin__perm2::make,
-      "mutual__pari" => mutual__pari::make,
-      "mutual__src2" => mutual__src2::make,
-      "mutual__ren" => mutual__ren::make,
-      "scc_chain__to" => scc_chain__to::make,
-      "scc_chain__strpar" => scc_chain__strpar::make,
-      "repeated__par" => repeated__par::make,
-      "repeated__strpar" => repeated__strpar::make,
-      "three_dyn__ren" => three_dyn__ren::make,
-      "conds__ser" => conds__ser::make,
-      "conds__src2" => conds__src2::make,
-      "conds__ren" => conds__ren::make,
-      "count_up__to" => count_up__to::make,
-      "multi_head__perm2" => multi_head__perm2::make,
-      "facts__gen" => facts__gen::make,
-      "facts__srcpar" => facts__srcpar::make,
-      "opt_cols__ser" => opt_cols__ser::make,
-      "opt_cols__src2" => opt_cols__src2::make,
-      "cartesian__pari" => cartesian__pari::make,
-      "same_gen__ren" => same_gen__ren::make,
-      "not_reorderable__to" => not_reorderable__to::make,
-      "pre_join_rec__pari" => pre_join_rec__pari::make,
-      "two_inputs__par" => two_inputs__par::make,
-      "two_inputs__src1" => two_inputs__src1::make,
-      "two_inputs__perm2" => two_inputs__perm2::make,
-      "wild__pari" => wild__pari::make,
-      "ternary__str" => ternary__str::make,
-      "bound_mix__ren" => bound_mix__ren::make,
-      "join_chain__perm1" => join_chain__perm1::make,
-      "cond_simple_join__par" => cond_simple_join__par::make,
-      "zero_arity__par" => zero_arity__par::make,
-      "lag_right__to" => lag_right__to::make,
-      "lag_right__strpar" => lag_right__strpar::make,
-      "lag_three__pari" => lag_three__pari::make,
-      "lag_mid__ren" => lag_mid__ren::make,
-      "lag_late_delta__to" => lag_late_delta__to::make,
-      "multi_head_rec__exppar" => multi_head_rec__exppar::make,
-      "sp_dual__gen" => sp_dual__gen::make,
-      "sp_dual__srcpar" => sp_dual__srcpar::make,
-      "sp_weighted__to" => sp_weighted__to::make,
-      "set_reach__par" => set_reach__par::make,
-      "set_reach__src1" => set_reach__src1::make,
+      "tc_left__redecl" => tc_left__redecl::make,
+      "tc_left__str" => tc_left__str::make,
+      "tc_nonlin__perm1" => tc_nonlin__perm1::make,
+      "mutual__par" => mutual__par::make,
+      "mutual__src1" => mutual__src1::make,
+      "mutual__perm1" => mutual__perm1::make,
+      "scc_chain__par" => scc_chain__par::make,
+      "scc_chain__str" => scc_chain__str::make,
+      "consts__pari" => consts__pari::make,
+      "repeated__str" => repeated__str::make,
+      "three_dyn__perm1" => three_dyn__perm1::make,
+      "four_dyn__par" => four_dyn__par::make,
+      "conds__src0" => conds__src0::make,
+      "conds__srcpar" => conds__srcpar::make,
+      "count_up__ser" => count_up__ser::make,
+      "multi_head__to" => multi_head__to::make,
+      "facts__pari" => facts__pari::make,
+      "facts__srcred" => facts__srcred::make,
+      "facts__permpar" => facts__permpar::make,
+      "opt_cols__mrt" => opt_cols__mrt::make,
+      "opt_cols__init" => opt_cols__init::make,
+      "same_gen__pari" => same_gen__pari::make,
+      "same_gen__u64" => same_gen__u64::make,
+      "not_reorderable__perm2" => not_reorderable__perm2::make,
+      "pre_join_rec__perm1" => pre_join_rec__perm1::make,
+      "two_inputs__topar" => two_inputs__topar::make,
+      "two_inputs__srcred" => two_inputs__srcred::make,
+      "two_inputs__permpar" => two_inputs__permpar::make,
+      "ternary__par" => ternary__par::make,
+      "ternary__strpar" => ternary__strpar::make,
+      "bound_mix__str" => bound_mix__str::make,
+      "join_chain__ren" => join_chain__ren::make,
+      "reach__ser" => reach__ser::make,
+      "self_join3__ser" => self_join3__ser::make,
+      "lag_right__perm1" => lag_right__perm1::make,
+      "lag_left__par" => lag_left__par::make,
+      "lag_three__topar" => lag_three__topar::make,
+      "lag_mid__str" => lag_mid__str::make,
+      "multi_head_rec__ser" => multi_head_rec__ser::make,
+      "sp_dual__par" => sp_dual__par::make,
+      "sp_dual__src1" => sp_dual__src1::make,
+      "sp_dual__perm1" => sp_dual__perm1::make,
+      "sp_weighted__topar" => sp_weighted__topar::make,
+      "set_reach__pari" => set_reach__pari::make,
+      "set_reach__src2" => set_reach__src2::make,
       "bset__par" => bset__par::make,
       "cp__topar" => cp__topar::make,
       "bool_lat__par" => bool_lat__par::make,
@@ -163,52 +167,54 @@ fn lookup(name: &str) -> fn() -> Box<dyn Driven> {
       "lat_count_all__par" => lat_count_all__par::make,
       "lat_input__to" => lat_input__to::make,
       "lat_input__srcto" => lat_input__srcto::make,
-      "count_paths__to" => count_paths__to::make,
-      "count_paths__srcto" => count_paths__srcto::make,
-      "neg_basic__to" => neg_basic__to::make,
-      "neg_basic__srcto" => neg_basic__srcto::make,
-      "neg_basic__permpar" => neg_basic__permpar::make,
-      "agg_depth__pari" => agg_depth__pari::make,
-      "agg_user__ser" => agg_user__ser::make,
-      "agg_bound_mix__ser" => agg_bound_mix__ser::make,
-      "agg_empty_rel__ser" => agg_empty_rel__ser::make,
-      "agg_const_args__exp" => agg_const_args__exp::make,
-      "disj__to" => disj__to::make,
-      "disj__srcto" => disj__srcto::make,
-      "disj__permpar" => disj__permpar::make,
-      "pat_args__ser" => pat_args__ser::make,
-      "rep_expr__exp" => rep_expr__exp::make,
-      "neg_in_disj__par" => neg_in_disj__par::make,
-      "mac_basic__topar" => mac_basic__topar::make,
-      "mac_basic__redecl" => mac_basic__redecl::make,
-      "mac_capture__pari" => mac_capture__pari::make,
-      "mac_gensym_disj__ser" => mac_gensym_disj__ser::make,
-      "mac_disj__exp" => mac_disj__exp::make,
-      "rnd_core_01__ser" => rnd_core_01__ser::make,
-      "rnd_core_03__pari" => rnd_core_03__pari::make,
-      "rnd_core_06__par" => rnd_core_06__par::make,
-      "rnd_core_09__ser" => rnd_core_09__ser::make,
-      "rnd_core_11__pari" => rnd_core_11__pari::make,
-      "rnd_core_14__par" => rnd_core_14__par::make,
-      "rnd_core_17__ser" => rnd_core_17__ser::make,
-      "rnd_core_19__pari" => rnd_core_19__pari::make,
-      "rnd_core_22__par" => rnd_core_22__par::make,
-      "rnd_core_25__ser" => rnd_core_25__ser::make,
-      "rnd_core_27__pari" => rnd_core_27__pari::make,
-      "rnd_core_30__par" => rnd_core_30__par::make,
-      "rnd_agg_03__ser" => rnd_agg_03__ser::make,
-      "rnd_agg_05__pari" => rnd_agg_05__pari::make,
-      "rnd_agg_08__par" => rnd_agg_08__par::make,
-      "rnd_agg_11__ser" => rnd_agg_11__ser::make,
-      "rnd_agg_13__pari" => rnd_agg_13__pari::make,
-      "rnd_prec_01__par" => rnd_prec_01__par::make,
-      "rnd_prec_02__topar" => rnd_prec_02__topar::make,
-      "rnd_prec_04__pari" => rnd_prec_04__pari::make,
-      "rnd_prec_06__ser" => rnd_prec_06__ser::make,
-      "rnd_prec_07__to" => rnd_prec_07__to::make,
-      "rnd_prea_01__par" => rnd_prea_01__par::make,
-      "rnd_prea_04__ser" => rnd_prea_04__ser::make,
-      "rnd_prea_06__pari" => rnd_prea_06__pari::make,
+      "count_paths__pari" => count_paths__pari::make,
+      "count_paths__src2" => count_paths__src2::make,
+      "neg_basic__par" => neg_basic__par::make,
+      "neg_basic__src1" => neg_basic__src1::make,
+      "neg_basic__perm1" => neg_basic__perm1::make,
+      "agg_minmaxsum__pari" => agg_minmaxsum__pari::make,
+      "agg_lattice__pari" => agg_lattice__pari::make,
+      "neg_rec_after__pari" => neg_rec_after__pari::make,
+      "agg_empty__pari" => agg_empty__pari::make,
+      "agg_const_args__ser" => agg_const_args__ser::make,
+      "disj__ser" => disj__ser::make,
+      "disj__src0" => disj__src0::make,
+      "disj__srcpar" => disj__srcpar::make,
+      "disj_nested__par" => disj_nested__par::make,
+      "pat_args__exppar" => pat_args__exppar::make,
+      "multi_head_disj__pari" => multi_head_disj__pari::make,
+      "mac_basic__ser" => mac_basic__ser::make,
+      "mac_basic__src0" => mac_basic__src0::make,
+      "mac_basic__srcpar" => mac_basic__srcpar::make,
+      "mac_nested__ser" => mac_nested__ser::make,
+      "mac_gensym_disj__exp" => mac_gensym_disj__exp::make,
+      "mac_block__par" => mac_block__par::make,
+      "mac_disj__exppar" => mac_disj__exppar::make,
+      "rnd_core_01__par" => rnd_core_01__par::make,
+      "rnd_core_04__ser" => rnd_core_04__ser::make,
+      "rnd_core_06__pari" => rnd_core_06__pari::make,
+      "rnd_core_09__par" => rnd_core_09__par::make,
+      "rnd_core_12__ser" => rnd_core_12__ser::make,
+      "rnd_core_14__pari" => rnd_core_14__pari::make,
+      "rnd_core_17__par" => rnd_core_17__par::make,
+      "rnd_core_20__ser" => rnd_core_20__ser::make,
+      "rnd_core_22__pari" => rnd_core_22__pari::make,
+      "rnd_core_25__par" => rnd_core_25__par::make,
+      "rnd_core_28__ser" => rnd_core_28__ser::make,
+      "rnd_core_30__pari" => rnd_core_30__pari::make,
+      "rnd_agg_03__par" => rnd_agg_03__par::make,
+      "rnd_agg_06__ser" => rnd_agg_06__ser::make,
+      "rnd_agg_08__pari" => rnd_agg_08__pari::make,
+      "rnd_agg_11__par" => rnd_agg_11__par::make,
+      "rnd_agg_14__ser" => rnd_agg_14__ser::make,
+      "rnd_prec_01__pari" => rnd_prec_01__pari::make,
+      "rnd_prec_03__ser" => rnd_prec_03__ser::make,
+      "rnd_prec_04__to" => rnd_prec_04__to::make,
+      "rnd_prec_06__par" => rnd_prec_06__par::make,
+      "rnd_prec_07__topar" => rnd_prec_07__topar::make,
+      "rnd_prea_01__pari" => rnd_prea_01__pari::make,
+      "rnd_prea_04__par" => rnd_prea_04__par::make,
+      "rnd_prea_07__ser" => rnd_prea_07__ser::make,
       _ => panic!("no such program variant in this shard: {}", name),
    }
 }
